@@ -18,12 +18,30 @@ def _decl(L):
     L.HAdestroy_group.argtypes = [c_int]
 
 
+SPACE = 1 << 28          # the library's id space (ATOM_BITS = 28)
+
+
 def real_id(c, mid):
-    """model id (the counter value at registration) -> the library's atom; ids never issued in this
-    behaviour map to an atom number of the same group that was never issued"""
+    """model id -> the library's atom.  The model's id space is small (IdSpace); it is laid over the library's 2^28 ids
+    so that the two ends coincide: model ids below the Burn target are the library's ids of the same number, model ids
+    from the Burn target on (only issued after a Burn step) are the LAST ids of the library's space.  Ids never issued
+    in this behaviour map to an atom number of the same group that was never issued."""
     if mid in c.v.setdefault("ids", {}):
         return c.v["ids"][mid]
-    return (GRP << 28) | (100000 + mid)
+    return to32((GRP << 28) | (100000 + mid))
+
+
+def to32(x):
+    x &= 0xFFFFFFFF
+    return x - (1 << 32) if x & 0x80000000 else x
+
+
+def model_id(c, rid):
+    r = rid & (SPACE - 1)
+    sp = c.v.get("space")
+    if sp and r >= SPACE // 2:
+        return sp - (SPACE - r)
+    return r
 
 
 @teardown("Atoms")
@@ -36,6 +54,8 @@ def at_teardown(c):
 def at_init(c, a):
     _decl(c.L)
     c.v["ids"] = {}
+    c.v["removed"] = set()
+    c.v.pop("space", None)
     c.v["n"] = 0
     c.v["inited"] = True
     return {"ret": c.L.HAinit_group(GRP, 8)}
@@ -45,13 +65,24 @@ def at_init(c, a):
 def at_register(c, a):
     rid = c.L.HAregister_atom(GRP, a["obj"])
     live_now = set(c.v["ids"][m] for m in c.v["ids"] if m not in c.v.setdefault("removed", set()))
-    mid = c.v["n"]
-    c.v["n"] += 1
     if rid == FAIL:
         return {"ret": FAIL}
+    mid = model_id(c, rid)
     fresh = rid not in live_now
     c.v["ids"][mid] = rid
+    c.v["removed"].discard(mid)
     return {"ret": mid if fresh else -2}      # -2: the library issued the number of a live atom
+
+
+@op("Atoms", "Burn")
+def at_burn(c, a):
+    """(2^28 - 3 - from) register/remove pairs of a throwaway object: the counter then shows the last three ids"""
+    c.L.h4v_burn_atoms.restype = ctypes.c_ulong
+    c.L.h4v_burn_atoms.argtypes = [c_int, ctypes.c_ulong]
+    n = SPACE - 3 - a["from"]
+    done = c.L.h4v_burn_atoms(GRP, n)
+    c.v["space"] = a["space"]
+    return {"ret": 0 if done == n else FAIL}
 
 
 @op("Atoms", "Lookup")
@@ -75,4 +106,5 @@ def at_destroy(c, a):
     c.v["ids"] = {}
     c.v["removed"] = set()
     c.v["n"] = 0
+    c.v.pop("space", None)
     return {"ret": 0 if r != FAIL else FAIL}
